@@ -66,6 +66,18 @@ def run(ck: Check, only=None):
             elif t.before + b"".join(t.parts) + t.after != data or out != data or any(not p for p in t.parts):
                 ck.violation(f"[symbol sets={sets}] {data!r}: before+atoms+after = {t.before + b''.join(t.parts) + t.after!r}, dump {out!r}",
                              {"atom": "symbol", "data": data.hex(), "cut_before": sets[0].hex(), "cut_after": sets[1].hex()})
+    # delimiter sets given as TEXT on the command line (non-ASCII characters, backslashes): whatever they cut, the pieces
+    # are the file
+    from props.c15 import cli_text_sets
+
+    def judge_rt(b, a, data, t, dumped, argv):
+        cat = t.before + b"".join(t.parts) + t.after
+        if cat != data or dumped != data or any(not p for p in t.parts) or len(t.parts) != len(t.reducible):
+            ck.violation(f"[symbol] {' '.join(argv[1:4])!r} on {data!r}: before+atoms+after = {cat!r}, written back {dumped!r}, "
+                         f"{sum(1 for p in t.parts if not p)} empty atom(s)", {"argv": argv, "data": data.hex()})
+    if not only or "symbol" in only:
+        cli_text_sets(ck, judge_rt)
+
     def direct(atom, data):
         line, t, out = impl_load(atom, data)
         ck.count("repetition-" + atom)
